@@ -180,6 +180,8 @@ def bucketPut (s : St) (target other : Nat) : Except Err St :=
     match lookup s'.nodes target with
     | none => .error .dangling
     | some tb =>
+      -- "This will fail if bucket is not an inner object of the current … resource"
+      if tb.res != ob.res then .error .dangling else
       match tb.c, ob.c with
       | .f t, .f o => .ok { s' with nodes := setNode s'.nodes target { tb with c := .f (t.put o.liquid) } }
       | .n t, .n o => .ok { s' with nodes := setNode s'.nodes target { tb with c := .n (t.put o.liquid) } }
@@ -359,18 +361,19 @@ def step (s : St) : Op → Except Err St
           if b.c.amount < a then .error .worktopInsufficient
           else if b.c.amount = a then .ok (nameBucket { s with worktop := wtRemove s.worktop r } node)
           else
+            -- `existing_bucket.take(amount)`: the new bucket belongs to the bucket's own resource
             match b.c with
             | .f c =>
-              match c.take a (div r) .bucket with
+              match c.take a (div b.res) .bucket with
               | .error e => .error e
               | .ok c' =>
-                let (s1, nn) := newNode { s with nodes := setNode s.nodes node { b with c := .f c' } } ⟨r, .f { liquid := a, locked := [] }⟩
+                let (s1, nn) := newNode { s with nodes := setNode s.nodes node { b with c := .f c' } } ⟨b.res, .f { liquid := a, locked := [] }⟩
                 .ok (nameBucket s1 nn)
             | .n c =>
               match c.takeAmount a with
               | .error e => .error e
               | .ok (c', taken) =>
-                let (s1, nn) := newNode { s with nodes := setNode s.nodes node { b with c := .n c' } } ⟨r, .n { liquid := taken, locked := [] }⟩
+                let (s1, nn) := newNode { s with nodes := setNode s.nodes node { b with c := .n c' } } ⟨b.res, .n { liquid := taken, locked := [] }⟩
                 .ok (nameBucket s1 nn)
   | .takeAll r =>
     match lookup s.worktop r with
@@ -399,7 +402,7 @@ def step (s : St) : Op → Except Err St
               match c.take ids .bucket with
               | .error e => .error e
               | .ok c' =>
-                let (s1, nn) := newNode { s with nodes := setNode s.nodes node { b with c := .n c' } } ⟨3, .n { liquid := ids, locked := [] }⟩
+                let (s1, nn) := newNode { s with nodes := setNode s.nodes node { b with c := .n c' } } ⟨b.res, .n { liquid := ids, locked := [] }⟩
                 .ok (nameBucket s1 nn)
   | .ret b =>
     match takeNamed s b with
